@@ -140,6 +140,15 @@ let gc_enum nmax emax hmax depth =
 let parse_eop line =
   match split_ws line with
   | "node" :: ds -> ENode (List.map (fun d -> nat_of_int (int_of_string d)) ds)
+  | "noded" :: rest ->
+    (* noded d1 d2 / m1 m2 : static dependencies / potential demand targets *)
+    let rec split acc = function
+      | "/" :: t -> (List.rev acc, t)
+      | x :: t -> split (x :: acc) t
+      | [] -> (List.rev acc, []) in
+    let (ds, dm) = split [] rest in
+    let nats l = List.map (fun d -> nat_of_int (int_of_string d)) l in
+    ENodeD (nats ds, nats dm)
   | ["adddep"; n; m] -> EAddDep (nat_of_int (int_of_string n), nat_of_int (int_of_string m))
   | "txn" :: fs ->
     ETxn (List.map (fun f -> match String.split_on_char ':' f with
